@@ -56,8 +56,9 @@ class StmtMixin:
         outs = m(node, st)
         gc = self.cur[0].extra.get('ghost_code') if self.cur else None
         if gc and not getattr(self, 'in_ghost', False):
-            text = ast.unparse(node).split('\n')[0]
-            stmts = gc.get(text)
+            full = ast.unparse(node)
+            text = full.split('\n')[0]
+            stmts = gc.get(full) or gc.get(text)
             if stmts:
                 # ghost statements attached to this statement by the sidecar (they may only assign ghost state G.*)
                 body = ast.parse('\n'.join(stmts)).body
@@ -541,6 +542,26 @@ class StmtMixin:
                 itrec = itv          # ``for x in iterator``: consumes the iterator (later next() calls continue after it)
             L = self.iter_to_list(itv, s)
             h = self.hlist(L, s)
+            cn = self.const_int(VInt(h.n))
+            if key in self.cur[0].extra.get('unroll', ()) and cn is not None and cn <= 16:
+                # a loop over a literal sequence: executed iteration by iteration (complete, no invariant needed)
+                self.note('rule', (node.lineno, key, 'unrolled %d times (literal sequence)' % cn))
+                states, res = [s], []
+                for it in range(cn):
+                    nxt = []
+                    for s1 in states:
+                        self.bind_for_target(node.target, from_z3(z3.simplify(z3.Select(h.arr, it)), h.et), s1)
+                        for s3, kind, val in self.exec_block(node.body, s1):
+                            if kind in ('normal', 'continue'):
+                                nxt.append(s3)
+                            elif kind == 'break':
+                                res.append((s3, 'normal', None))
+                            else:
+                                res.append((s3, kind, val))
+                    states = nxt
+                for s1 in states:
+                    res += self.exec_block(node.orelse, s1)
+                return res
             s.snapshot('pre' + key)
             idx_name = '_i%s' % key[5:]
             s.env[idx_name] = VInt(0)
@@ -616,7 +637,7 @@ class StmtMixin:
             for top in body:
                 for n in ast.walk(top):
                     if isinstance(n, ast.stmt):
-                        g = gc.get(ast.unparse(n).split('\n')[0])
+                        g = gc.get(ast.unparse(n)) or gc.get(ast.unparse(n).split('\n')[0])
                         if g:
                             extra += ast.parse('\n'.join(g)).body
             if extra:
